@@ -59,7 +59,8 @@ def _case(draw):
 
 def parts(tier):
     q = tier == "quick"
-    return [Part("solve", strategy=_case(), examples=2500 if q else 40000, timeout=300)]
+    return [Part("solve", strategy=_case(), examples=2500 if q else 40000, timeout=300),
+            Part("solve_cov", strategy=_case(), fuzz=800 if q else 48000, timeout=300)]    # coverage-guided (pbt/fuzz.py)
 
 
 class System(object):
